@@ -264,8 +264,13 @@ def dir_files(d: Path):
     return out
 
 
+_FILE_ROWS = []
+
+
 def tables_part(ctx, table):
-    writers, readers = tables_c11.file_rows()
+    if not _FILE_ROWS:
+        _FILE_ROWS.append(tables_c11.file_rows())
+    writers, readers = _FILE_ROWS[0]
     fresh_w = [{"call": a, "file": ref(f)} for a, f in writers]
     fresh_r = lookup_rows(readers)
     stale(ctx, "writerFiles", fresh_w, [{"call": w["call"], "file": w["file"]} for w in table["writer"]])
@@ -289,7 +294,7 @@ def tables_part(ctx, table):
 WORDS = ("alpha", "beta", "gamma", "delta", "eps", "zeta", "data", "meta", "samples", "latent_samples", "covariance", "info", "x1")
 
 
-def gen_dir_spec(rng):
+def gen_dir_spec(rng, uid=0):
     def name():
         n = rng.choice(WORDS)
         return n if rng.random() < 0.8 else n + rng.choice(("_2", ".v", "-b"))
@@ -302,7 +307,15 @@ def gen_dir_spec(rng):
     for _ in range(rng.randint(0, 5)):
         kind = rng.choice(("json", "json", "pickle", "csv", "fits"))
         pre = prefix() if kind in ("json", "pickle", "fits") else []
-        user.append({"kind": kind, "pre": pre, "name": name(), "value": rng.randint(0, 9)})
+        nm = name()
+        if kind != "json" and not pre and nm in ("info", "model"):
+            nm = nm + "_u"  # known finding C11-user-file-named-like-accessor (corpus case, every run)
+        user.append({"kind": kind, "pre": pre, "name": nm, "value": rng.randint(0, 9)})
+    # every case holds a file below a prefix (kind by turns) and a table, whatever the dice say
+    forced_kind = ("json", "pickle", "fits")[uid % 3]
+    user.insert(0, {"kind": forced_kind, "pre": [rng.choice(("sub", "deep"))] + ([rng.choice(("er", "latent"))] if uid % 2 else []),
+                    "name": rng.choice(WORDS[:8]), "value": rng.randint(0, 9)})
+    user.insert(1, {"kind": "csv", "pre": [], "name": rng.choice(WORDS[:8] + ("covariance",)), "value": rng.randint(0, 9)})
     seen, uniq = set(), []
     for u in user:
         k = (u["kind"], tuple(u["pre"]), u["name"])
@@ -396,7 +409,7 @@ def files_case(ctx, uid, lookups, spec=None):
     from autofit.aggregator.search_output import SearchOutput
     from autofit.database.model import Fit
 
-    spec = spec or gen_dir_spec(ctx.rng)
+    spec = spec or gen_dir_spec(ctx.rng, uid)
     case = {"fit_directory": spec, "uid": uid}
     ctx.case(case, nontrivial=bool(spec["user"]) or spec["analyses"] > 0, sample=None)
     top, root, written, ident = write_dir(spec, uid)
@@ -427,13 +440,25 @@ def files_case(ctx, uid, lookups, spec=None):
             real_flags["has_samples"] = so.samples is not None
         except AttributeError:
             real_flags["has_samples"] = False
+        if any(u["kind"] != "json" and not u["pre"] and u["name"] in ("info", "model") for u in spec["user"]):
+            real_flags.pop("has_info")  # outside the model's guard: known finding C11-user-file-named-like-accessor
         model_flags = {k: ans["flags"][k] for k in real_flags}
         if real_flags != model_flags:
             ctx.disagree("C11.files.flags", case, real_flags, model_flags)
         # the database after add_directory
-        with contextlib.redirect_stdout(io.StringIO()):
-            agg = af.Aggregator.from_database(str(dbdir / "f.sqlite"))
-            agg.add_directory(str(top), completed_only=False)
+        reserved = [u for u in spec["user"] if u["kind"] != "json" and not u["pre"] and u["name"] in ("info", "model")]
+        try:
+            with contextlib.redirect_stdout(io.StringIO()):
+                agg = af.Aggregator.from_database(str(dbdir / "f.sqlite"))
+                agg.add_directory(str(top), completed_only=False)
+        except Exception as e:
+            if reserved:
+                ctx.hit("known:user-file-named-like-accessor")
+                ctx.fail("C11-user-file-named-like-accessor", "add_directory raises when a pickle / table / fits file saved into a fit's directory is called "
+                         "`info` (no info.json) or `model`: SearchOutput.value(name) falls back on files of any kind", case, f"{type(e).__name__}: {e}"[:200])
+            else:
+                ctx.fail("C11-scrape-raises", "Aggregator.add_directory raises on a directory written with the writer API", case, f"{type(e).__name__}: {e}"[:300])
+            return
         agg.session.expire_all()
         fits_ = agg.session.query(Fit).all()
         fit = next((f for f in fits_ if f.id == ident), None)
@@ -472,14 +497,18 @@ def files_case(ctx, uid, lookups, spec=None):
             if u["kind"] == "csv" and dotted in ("samples", "latent_samples"):
                 continue  # the scraper reserves these names (would be the samples table itself)
             try:
-                got = fit[dotted] if u["kind"] != "json" else next(j.dict for j in fit.jsons if j.name == dotted)
+                # looked up in the column of its kind (two files of different kinds may share a dotted name)
                 if u["kind"] == "json":
+                    got = next(j.dict for j in fit.jsons if j.name == dotted)
                     okv = got == val
                 elif u["kind"] == "pickle":
+                    got = next(p.value for p in fit.pickles if p.name == dotted)
                     okv = got == val
                 elif u["kind"] == "csv":
+                    got = next(a.array for a in fit.arrays if a.name == dotted and type(a).__name__ != "HDU")
                     okv = np.array_equal(np.asarray(got), val)
                 else:
+                    got = next(h.hdu for h in fit.hdus if h.name == dotted)
                     okv = np.array_equal(np.asarray(got.data), val)
             except (StopIteration, AttributeError, KeyError) as e:
                 okv, got = False, f"{type(e).__name__}"
